@@ -245,20 +245,37 @@ func (f *fileCtx) walk() {
 			if f.mode != "explore" || inComm[x] {
 				break
 			}
-			if !pure(x.Chan) {
-				// evaluate the channel once: { c := <expr>; vrt.BeforeSend(c); c <- v } (only where a block may stand)
-				switch parent(1).(type) {
-				case *ast.BlockStmt, *ast.CaseClause, *ast.CommClause:
-					name := fmt.Sprintf("vrts%d", f.fset.Position(x.Pos()).Line)
-					f.ins(x.Pos(), "{ "+name+" := "+f.text(x.Chan)+"; vrt.BeforeSend("+name+"); ")
-					f.repl(x.Chan.Pos(), x.Chan.End(), name)
-					f.ins(x.End(), " }")
-				default:
-					f.unsupported(x, "send on a channel expression with side effects outside a statement list")
-				}
+			// Go evaluates the channel and then the value and only then communicates: the scheduling
+			// point of the send must come after both (a value that is a call may run for long and
+			// has scheduling points of its own).
+			constVal := false
+			if tv, ok := f.info.Types[x.Value]; ok && (tv.Value != nil || tv.IsNil()) {
+				constVal = true
+			}
+			hoistChan, hoistVal := !plainOperand(x.Chan), !constVal && !plainOperand(x.Value)
+			if !hoistChan && !hoistVal {
+				f.ins(x.Pos(), "vrt.BeforeSend("+f.text(x.Chan)+"); ")
 				break
 			}
-			f.ins(x.Pos(), "vrt.BeforeSend("+f.text(x.Chan)+"); ")
+			switch parent(1).(type) {
+			case *ast.BlockStmt, *ast.CaseClause, *ast.CommClause:
+			default:
+				f.unsupported(x, "send with operands that have to be evaluated first outside a statement list")
+			}
+			line := f.fset.Position(x.Pos()).Line
+			ch, head := f.text(x.Chan), "{ "
+			if hoistChan {
+				ch = fmt.Sprintf("vrts%d", line)
+				head += ch + " := " + f.text(x.Chan) + "; "
+			}
+			if hoistVal {
+				val := fmt.Sprintf("vrtv%d", line)
+				f.repl(x.Pos(), x.Value.Pos(), head+val+" := ")
+				f.ins(x.End(), "; vrt.BeforeSend("+ch+"); "+ch+" <- "+val+" }")
+			} else {
+				f.repl(x.Pos(), x.Value.Pos(), head+"vrt.BeforeSend("+ch+"); "+ch+" <- ")
+				f.ins(x.End(), " }")
+			}
 		case *ast.UnaryExpr:
 			if f.mode != "explore" || x.Op != token.ARROW {
 				break
@@ -380,6 +397,10 @@ func (f *fileCtx) selector(x *ast.SelectorExpr) {
 		if f.mode == "explore" {
 			to = "vrt.GC"
 		}
+	case "io.Pipe", "io.PipeReader", "io.PipeWriter":
+		if f.mode == "explore" {
+			to = "vrt.IO" + x.Sel.Name // the real pipe parks its callers inside the standard library
+		}
 	case "time.After", "time.NewTimer", "time.AfterFunc", "time.Tick", "time.NewTicker", "time.Timer", "time.Ticker":
 		if f.mode == "explore" {
 			to = "vrt." + x.Sel.Name // timers on the virtual clock (the types as well)
@@ -488,7 +509,7 @@ func (f *fileCtx) rangeStmt(x *ast.RangeStmt) {
 	switch {
 	case isMap(t):
 		m := f.text(x.X)
-		if !pure(x.X) {
+		if _, isName := unparen(x.X).(*ast.Ident); !isName {
 			// evaluate the map expression once: { vrtm := <expr>; for ... range vrt.Keys(vrtm) { ... } }
 			name := fmt.Sprintf("vrtm%d", f.fset.Position(x.Pos()).Line)
 			f.ins(x.Pos(), "{ "+name+" := "+m+"; ")
@@ -567,6 +588,8 @@ func (f *fileCtx) finish() {
 			fmt.Fprintf(&tail, "var _ %s.Duration\n", name)
 		case "runtime":
 			fmt.Fprintf(&tail, "var _ = %s.GOOS\n", name)
+		case "io":
+			fmt.Fprintf(&tail, "var _ %s.Reader\n", name)
 		}
 	}
 	f.edits = append(f.edits, edit{off: len(f.src), text: tail.String(), seq: len(f.edits)})
